@@ -98,7 +98,7 @@ fn spellings(f: &Fields) -> Vec<String> {
 /// values at the top of the u32 range: a key packed into one integer (phase * MAX + number and the like) collides here
 fn boundary_universe() -> (Vec<V>, usize) {
     const M: u32 = u32::MAX;
-    build_universe(&[0, M], &[vec![1], vec![M], vec![1, M], vec![1, 0]], &[None, Some(("a", 0)), Some(("a", M)), Some(("b", 0)), Some(("b", M)), Some(("rc", 0)), Some(("rc", M))],
+    build_universe(&[0, M], &[vec![1], vec![M], vec![1, M], vec![1, 0], vec![1, M, 1], vec![1, 2147483648, 2147483648], vec![1, 0, 0, M]], &[None, Some(("a", 0)), Some(("a", M)), Some(("b", 0)), Some(("b", M)), Some(("rc", 0)), Some(("rc", M))],
         &[None, Some(0), Some(M)], &[None, Some(0), Some(M)], &[None, Some("4294967295"), Some("4294967296")])
 }
 
